@@ -126,8 +126,48 @@ def m_chars_next(ex, callee, args, ret_ty, frame):
     return models.m_iter_next(ex, callee, args, ret_ty, frame)
 
 
+def utf8_len(c):
+    return z3.If(z3.ULT(c, 0x80), z3.BitVecVal(1, 64), z3.If(z3.ULT(c, 0x800), z3.BitVecVal(2, 64), z3.If(z3.ULT(c, 0x10000), z3.BitVecVal(3, 64), z3.BitVecVal(4, 64))))
+
+
+def utf8_bytes(c):
+    """the four candidate bytes of the UTF-8 encoding of the scalar c (only the first utf8_len count)"""
+    x = lambda hi, lo: z3.ZeroExt(8 - (hi - lo + 1), z3.Extract(hi, lo, c))
+    b1 = z3.If(z3.ULT(c, 0x80), x(6, 0), z3.If(z3.ULT(c, 0x800), 0xC0 | x(10, 6), z3.If(z3.ULT(c, 0x10000), 0xE0 | x(15, 12), 0xF0 | x(20, 18))))
+    b2 = z3.If(z3.ULT(c, 0x800), 0x80 | x(5, 0), z3.If(z3.ULT(c, 0x10000), 0x80 | x(11, 6), 0x80 | x(17, 12)))
+    b3 = z3.If(z3.ULT(c, 0x10000), 0x80 | x(5, 0), 0x80 | x(11, 6))
+    b4 = 0x80 | x(5, 0)
+    return [b1, b2, b3, b4]
+
+
 def m_encode_utf8(ex, callee, args, ret_ty, frame):
-    return VRef(ex.heap(text(ex, [args[0].bv]), "utf8"), (), True)
+    # writes the encoding into the caller's buffer (used by the bytes literal) and returns the
+    # encoded character as a one-character text (used by the number path)
+    c = args[0].bv
+    buf = models.deref(ex, args[1]) if len(args) > 1 else None
+    if isinstance(buf, VSeq) and isinstance(buf.length, int) and buf.length >= 4:
+        bs = utf8_bytes(c)
+        for i in range(4):
+            buf.items[i] = VInt(z3.simplify(bs[i]), False)
+    return VRef(ex.heap(text(ex, [c]), "utf8"), (), True)
+
+
+def m_len_utf8(ex, callee, args, ret_ty, frame):
+    return VInt(utf8_len(args[0].bv), False)
+
+
+def m_index_range_to(ex, callee, args, ret_ty, frame):
+    arr = models.deref(ex, args[0])
+    rng = args[1]
+    end = rng.fields[0] if isinstance(rng, VStruct) else rng
+    k = end.concrete()
+    if k is None:
+        k = 1 + ex.branch([(str(j), end.bv == j) for j in range(1, 5)], "utf8.len")
+    return VRef(ex.heap(VSeq(arr.elem_ty, k, [vcopy(x) for x in arr.items[:k]], ex.new_vid()), "subslice"))
+
+
+def m_vec_into_bytes(ex, callee, args, ret_ty, frame):
+    return VStruct("CelBytes", [args[0]], ex.new_vid())
 
 
 def digit_value(c, radix):
@@ -227,7 +267,8 @@ TOK_CFG = dict(
         (r"^<String as PartialEq<&str>>::eq$|^<str as PartialEq>::eq$|^<String as PartialEq<str>>::eq$", m_str_eq),
         (r"<impl str>::contains::<&str>$", m_contains), (r"<impl str>::trim_start_matches::<&str>$", m_trim_start),
         (r"<impl str>::chars$", m_chars), (r"^<Chars as Iterator>::next$", m_chars_next),
-        (r"<impl char>::encode_utf8$", m_encode_utf8), (r"<impl char>::is_digit$", m_is_digit), (r"<impl char>::is_ascii_hexdigit$", m_is_ascii_hexdigit), (r"<impl char>::from_u32$", m_from_u32),
+        (r"<impl char>::encode_utf8$", m_encode_utf8), (r"<impl char>::len_utf8$", m_len_utf8),
+        (r"^<\[u8; 4\] as Index<RangeTo<usize>>>::index$", m_index_range_to), (r"^<Vec<u8> as Into<CelBytes>>::into$", m_vec_into_bytes), (r"<impl char>::is_digit$", m_is_digit), (r"<impl char>::is_ascii_hexdigit$", m_is_ascii_hexdigit), (r"<impl char>::from_u32$", m_from_u32),
         (r"from_str_radix$", m_from_str_radix), (r"<impl str>::parse::<f64>$", m_parse_f64),
         (r"as Iterator>::collect::<String>$", m_collect_string), (r"^Option(::)?(<.*>)?::map::", m_option_map),
     ],
@@ -420,6 +461,65 @@ def ref_string(A, s):
         raise Outside()  # unknown escape letters
 
 
+def ref_bytes(A, s):
+    """b"..." -> list of 8-bit terms | ('error',) ; Outside for shapes the statement does not cover"""
+    if len(s) < 3 or not A.ask(s[0] == C("b")) or not is_one_of(A, s[1], "\"'"):
+        raise Outside()
+    q, out, i, n = s[1], [], 2, len(s)
+    while True:
+        if i >= n:
+            return ("error",)
+        c = s[i]
+        if A.ask(c == q):
+            if i != n - 1:
+                raise Outside()
+            return ("bytes", out)
+        if not A.ask(c == C("\\")):
+            # a plain character contributes its UTF-8 encoding
+            k = None
+            for j in range(1, 5):
+                if A.ask(utf8_len(c) == j):
+                    k = j
+                    break
+            out += [z3.simplify(b) for b in utf8_bytes(c)[:k]]
+            i += 1
+            continue
+        if i + 1 >= n:
+            return ("error",)
+        e = s[i + 1]
+        i += 2
+        done = False
+        for ch, code in SIMPLE_ESC.items():
+            if A.ask(e == C(ch)):
+                out.append(z3.BitVecVal(code, 8))
+                done = True
+                break
+        if done:
+            continue
+        if is_one_of(A, e, "xX"):
+            if i + 2 > n:
+                return ("error",)
+            digs = s[i:i + 2]
+            if not all(is_hex(A, d) for d in digs):
+                return ("error",)
+            out.append(z3.Extract(7, 0, fold(digs, 16)))
+            i += 2
+            continue
+        if is_dec(A, e):
+            if i + 2 > n:
+                return ("error",)
+            digs = [e] + s[i:i + 2]
+            if not all(A.ask(z3.And(z3.UGE(d, C("0")), z3.ULE(d, C("7")))) for d in digs):
+                return ("error",)
+            v = fold(digs, 8)
+            if A.ask(z3.UGT(v, 0o377)):
+                return ("error",)  # a byte cannot hold it
+            out.append(z3.Extract(7, 0, v))
+            i += 2
+            continue
+        raise Outside()
+
+
 def token_of(ex, ret):
     """(kind, payload, range) of Ok(Some(TokenWithLoc)), ('none',), ('error', loc)"""
     if not isinstance(ret.discr, int):
@@ -449,7 +549,7 @@ def check_token(kind):
 
         def ref(A):
             try:
-                return ref_number(A, s) if kind == "number" else ref_string(A, s)
+                return ref_number(A, s) if kind == "number" else (ref_bytes(A, s) if kind == "bytes" else ref_string(A, s))
             except Outside:
                 return ("outside",)
         for assumed, exp in run_reference(ex, ref):
@@ -494,6 +594,16 @@ def check_token(kind):
                     V.check(ex, "StringLit has exactly the characters the literal spells",
                             z3.And([a.bv == b for a, b in zip(t.items, exp[1])] + [z3.BoolVal(True)]) if same else z3.BoolVal(False), assumed,
                             detail=lambda: f"token text {t!r}, expected {exp[1]}", scenario=sc)
+            elif exp[0] == "bytes":
+                if got[0] != "ByteStringLit":
+                    V.check(ex, "a well-formed bytes literal becomes a ByteStringLit token", False, assumed, detail=lambda: f"got {got[0]} for {s}", scenario=sc)
+                else:
+                    t = got[1][0]
+                    t = t.fields[0] if isinstance(t, VStruct) else t
+                    same = isinstance(t, VSeq) and t.length == len(exp[1])
+                    V.check(ex, "ByteStringLit has exactly the bytes the literal spells",
+                            z3.And([a.bv == b for a, b in zip(t.items, exp[1])] + [z3.BoolVal(True)]) if same else z3.BoolVal(False), assumed,
+                            detail=lambda: f"token bytes {t!r}, expected {exp[1]}", scenario=sc)
             elif exp[0] == "error":
                 V.check(ex, "malformed escapes and invalid code points are rejected", got[0] == "error", assumed, detail=lambda: f"got {got[0]} {got[1:]} for {s}", scenario=sc)
             # C18: the token's span is the whole input, on line 0
@@ -546,4 +656,7 @@ add("tok_string_plain", [("sym", 1, lambda c: z3.Or(c == C('"'), c == C("'"))), 
 add("tok_string_x", ['"\\x', ("sym", 2), '"'], "string", "\\xHH with arbitrary characters in the digit positions")
 add("tok_string_u", ['"\\u', ("sym", 4, ASCII), '"'], "string", "\\uHHHH (surrogates are invalid)")
 add("tok_string_U", ['"\\U', ("sym", 8, lambda c: z3.Or(DIG(c), z3.And(z3.UGE(c, C("a")), z3.ULE(c, C("g"))), z3.And(z3.UGE(c, C("A")), z3.ULE(c, C("G"))))), '"'], "string", "\\UHHHHHHHH (code points beyond 0x10FFFF and surrogates are invalid)")
+add("tok_bytes_plain", ['b"', ("symlen", 0, 2, lambda c: z3.BoolVal(True)), '"'], "bytes", "byte strings of 0..=2 arbitrary characters (UTF-8 encoded) incl. single-character escapes")
+add("tok_bytes_x", ['b"\\x', ("sym", 2, ASCII), '"'], "bytes", "\\xHH in a byte string: the byte HH")
+add("tok_bytes_octal", ['b"\\', ("sym", 3, ASCII), '"'], "bytes", "three-digit octal in a byte string: values above \\377 are rejected")
 add("tok_string_octal", ['"\\', ("sym", 3, ASCII), '"'], "string", "three-digit octal escapes")
